@@ -42,6 +42,11 @@ pub fn cap_fees() -> FeeSpec {
     FeeSpec { p: 500, s: 500, b: 500, x: vec![250, 250] }
 }
 
+/// a pool whose only fee is the burn fee (1 %): every hop through it charges zero swap and protocol fees
+pub fn burn_only_fees() -> FeeSpec {
+    FeeSpec { p: 0, s: 0, b: 100, x: vec![] }
+}
+
 type Funds = Vec<(String, u128)>;
 
 #[derive(Clone, Debug, Serialize, Deserialize, PartialEq)]
@@ -465,6 +470,8 @@ pub fn seed_ops(name: &str) -> Vec<PuOp> {
             v
         }
         "S5" => base(cap_fees()),
+        // every pool charges the burn fee only: a hop's swap and protocol fees are zero while something must still be burned
+        "S9" => base(burn_only_fees()),
         // a constant-product pool whose only liquidity provider is A (the owner holds none), after a fee-paying swap:
         // A can drain it down to the locked minimum
         "S7" => vec![
@@ -688,6 +695,11 @@ pub fn enabled(w: &World, pre: &PuObs, alpha: Alpha) -> Vec<PuOp> {
                 // two hops deliver (and charge fees in) the same denom
                 ops.push(route(B, &[("uom", "uusd", "o.cp"), ("uusd", "uusdc", "o.ss"), ("uusdc", "uom", "o.cp2"), ("uom", "uusd", "o.cp")], 55_555, None, None));
             }
+        }
+        if has("o.cp2") && has("o.s2") {
+            // three pools visited once each while one denom is the input of two hops (the second time as the product of the
+            // hop before): a quote that looks amounts up by denom must take the latest one
+            ops.push(route(B, &[("uusdc", "ausdy", "o.s2"), ("ausdy", "uusdc", "o.ss"), ("uusdc", "uom", "o.cp2")], 60_000, None, None));
         }
         if full {
             // a hop whose input and output denom are the same, alone and inside an otherwise valid route: refused
